@@ -520,9 +520,6 @@ def srid_from_first(f, first_geom_names):
     for g in first_geom_names:
         if re.search(r"->\s*setSRID\s*\(\s*%s\s*->\s*getSRID\s*\(\s*\)\s*\)" % re.escape(g), body):
             return True
-        # a factory built from the first argument's SRID, used to build the result
-        if re.search(r"GeometryFactory::create\s*\([^;]*\b%s\s*->\s*getSRID\s*\(\s*\)" % re.escape(g), body):
-            return True
     return False
 
 
